@@ -141,3 +141,83 @@ func verifHarnessBuildList() {
 	}
 	verifAssert(gotB == hasB && gotC == hasC, "A14.5-sufficient")
 }
+
+// A deeper universe: target a; module b with two versions (symbolic minor
+// digits); modules c and d with one version each. Every edge of
+// a->{b0,b1,c}, b0->{c,d}, b1->{c,d}, c->{d} is optional. Requirements reachable
+// only below a superseded version must still be followed.
+func verifHarnessBuildListChain() {
+	db := [2]byte{verifDigit("b0"), verifDigit("b1")}
+	verifAssume(db[0] != db[1])
+	target := verifMV{"a", ""}
+	nb := [2]verifMV{{"b", verifVer(db[0])}, {"b", verifVer(db[1])}}
+	c := verifMV{"c", "v1.0.0"}
+	d := verifMV{"d", "v1.0.0"}
+	opt := func(ms ...verifMV) []verifMV {
+		var out []verifMV
+		for _, m := range ms {
+			if verifChoice(2) == 1 {
+				out = append(out, m)
+			}
+		}
+		return out
+	}
+	rel := map[verifMV][]verifMV{}
+	ea := opt(nb[0], nb[1], c)
+	eb := [2][]verifMV{opt(c, d), opt(c, d)}
+	ec := opt(d)
+	rel[target], rel[nb[0]], rel[nb[1]], rel[c] = ea, eb[0], eb[1], ec
+
+	list, err := BuildList([]verifMV{target}, verifReqs{rel})
+	verifReach("built")
+	verifAssert(err == nil, "A14.5-chain-noerror")
+
+	// reference closure over all edges
+	has := func(ms []verifMV, m verifMV) bool {
+		for _, x := range ms {
+			if x == m {
+				return true
+			}
+		}
+		return false
+	}
+	rb := [2]bool{has(ea, nb[0]), has(ea, nb[1])}
+	rc := has(ea, c) || (rb[0] && has(eb[0], c)) || (rb[1] && has(eb[1], c))
+	rd := (rb[0] && has(eb[0], d)) || (rb[1] && has(eb[1], d)) || (rc && has(ec, d))
+	n := 1
+	var wb verifMV
+	if rb[0] || rb[1] {
+		n++
+		switch {
+		case rb[0] && rb[1]:
+			wb = nb[1]
+			if db[0] > db[1] {
+				wb = nb[0]
+			}
+		case rb[0]:
+			wb = nb[0]
+		default:
+			wb = nb[1]
+		}
+	}
+	if rc {
+		n++
+	}
+	if rd {
+		n++
+	}
+	verifAssert(len(list) == n, "A14.5-chain-exactly-the-reachable-modules")
+	gotB, gotC, gotD := false, false, false
+	for _, m := range list[1:] {
+		switch m.path {
+		case "b":
+			gotB = true
+			verifAssert(m == wb, "A14.5-chain-b-is-max-of-reachable")
+		case "c":
+			gotC = m == c
+		case "d":
+			gotD = m == d
+		}
+	}
+	verifAssert(gotB == (rb[0] || rb[1]) && gotC == rc && gotD == rd, "A14.5-chain-sufficient")
+}
